@@ -29,8 +29,10 @@ from ..utils import join_path, resolve_path
 
 def combine_patches(diffs):
     """Rewrite diffs in canonical form where only one patch
-    applies to one key and diff entries are sorted by key."""
+    applies to one key, only one addrange inserts at one index
+    and diff entries are sorted by key."""
     patches = {}
+    inserts = {}
     newdiffs = []
     for d in diffs:
         if d.op == DiffOp.PATCH:
@@ -41,6 +43,15 @@ def combine_patches(diffs):
                 patches[d.key] = p
             else:
                 p.diff = combine_patches(p.diff + d.diff)
+        elif d.op == DiffOp.ADDRANGE:
+            # (new entries: the ones passed in are not modified)
+            a = inserts.get(d.key)
+            if a is None:
+                a = op_addrange(d.key, d.valuelist)
+                newdiffs.append(a)
+                inserts[d.key] = a
+            else:
+                a.valuelist = a.valuelist + d.valuelist
         else:
             newdiffs.append(d)
     return sorted(newdiffs, key=lambda x: x.key)
